@@ -65,7 +65,7 @@ try:
         res = dict(ex.map(run, checks))
     out["checks"] = res
     out["alarms"] = [c for c, v in res.items() if v["exit"] != 0]
-    dst = "/verif/benign/%s_%s%s" % (prop, tag, k)
+    dst = "%s/%s_%s%s" % (os.environ.get("BENIGN_DST", "/verif/benign"), prop, tag, k)
     os.makedirs(dst, exist_ok=True)
     shutil.copy(diff, os.path.join(dst, "patch.diff"))
     if os.path.exists(eq):
